@@ -10,7 +10,7 @@ from .. import core, gen_mesh as gm
 
 ID = "C19"
 LIMIT = 120.0
-RULE = ("flow: closed meshes (spheres, ellipsoids, star-shaped perturbations of spheres, cube, octahedron, tori) and open meshes "
+RULE = ("flow: closed meshes (spheres, ellipsoids, star-shaped perturbations of spheres, cube, octahedron, tori; two graded meshes with tiny triangles of ~1e-4 the mean area set into larger ones) and open meshes "
         "(height-field grids, cylinders), jitter, relabelling, scales 1e-2..1e2, int32/float32 inputs x max_iter in {0,1,2,3,5} x "
         "step in {0.1,0.5,1,2} x stop_eps in {1e-13,1e-6,1e-3}; projection: ellipsoid-like closed meshes with longest axis y "
         "(levels 1-2, axes ratios, star-shaped bumps), flipped orientation, open meshes (ValueError), flow_iter in {0,1,3}. "
@@ -41,8 +41,29 @@ def star(level, rng, amp):
     return (v * f[:, None]).tolist(), t
 
 
+def graded(rng):
+    """closed mesh with one or two tiny triangles (area ~1e-4 of the mean) set into larger ones: seven triangles replace one"""
+    v, t = gm.ellipsoid(1, (1.0, rng.uniform(1.0, 1.4), rng.uniform(0.85, 1.1)), rng.choice(["ico", "octa"]))
+    v = [list(p) for p in v]
+    t = [list(r) for r in t]
+    for _ in range(rng.choice([1, 2])):
+        k = rng.randrange(len(t))
+        a, b, c = t.pop(k)
+        A, B, C = (np.array(v[i]) for i in (a, b, c))
+        cen = (A + B + C) / 3
+        r = rng.uniform(0.008, 0.015)
+        n = len(v)
+        v += [(cen + r * (X - cen)).tolist() for X in (A, B, C)]
+        p, q, w = n, n + 1, n + 2
+        t += [[a, b, q], [a, q, p], [b, c, w], [b, w, q], [c, a, p], [c, p, w], [p, q, w]]
+    return v, t
+
+
 def _flow_mesh(rng, tier):
-    fam = rng.choice(["sphere", "ellipsoid", "star", "cube", "octa", "torus", "gridh", "cylinder", "star", "sphere", "ico"])
+    fam = rng.choice(["sphere", "ellipsoid", "star", "cube", "octa", "torus", "gridh", "cylinder", "star", "sphere", "ico", "graded"])
+    if fam == "graded":
+        v, t = graded(rng)
+        return fam, v, t
     big = tier != "quick" and rng.random() < 0.3
     if fam == "sphere":
         v, t = gm.ellipsoid(2 if big else 1, (1.0, 1.0, 1.0), rng.choice(["ico", "octa"]))
@@ -65,6 +86,9 @@ def generate(rng, tier):
     n = 30 if tier == "quick" else 260
     while len(cases) < n:
         fam, v, t = _flow_mesh(rng, tier)
+        if len(cases) < 2:
+            fam = "graded"          # always present: element sizes spanning four orders of magnitude
+            v, t = graded(rng)
         if len(t) < 4 or len(v) > (45 if (tier == "quick" and fam != "star") else 170):
             continue
         v, t = gm.compact(v, t)
@@ -81,6 +105,8 @@ def generate(rng, tier):
         c = {"family": fam, "v": v, "t": t, "max_iter": rng.choice([0, 1, 1, 2, 3, 5]), "step": rng.choice([1.0, 1.0, 0.5, 2.0, 0.1]),
              "stop_eps": rng.choice([1e-13, 1e-13, 1e-6, 1e-3]), "scale": scale, "vdtype": vd, "tdtype": rng.choice(["int64", "int32"]),
              "project": None}
+        if fam == "graded":
+            c.update({"max_iter": rng.choice([2, 3]), "stop_eps": 1e-13})
         if fam == "star" and rng.random() < 0.6:
             c.update({"max_iter": 10, "step": 1.0, "stop_eps": 1e-13})      # long enough for the smoothing to dominate
         cases.append(c)
